@@ -18,7 +18,7 @@ Answer == IF c.part = "structure" THEN [case |-> c, accept |-> (c.recs # <<>> /\
                 latest |-> [t \in 0..7 |-> Latest(c.pubs, IF t = 0 THEN -1 ELSE t)],      \* index 0 stands for "no time given"
                 find |-> [t \in {2, 3, 4, 6} |-> [h \in {"a", "b"} |-> Find(c.pubs, t, h)]], cert |-> [id \in {"w", "x", "y", "z"} |-> CertById(c.certs, id)]]
 (* sanity of the definitions themselves *)
-Sane == /\ c.part = "structure" /\ c.recs # <<>> /\ Accept(c.magic, c.recs) => (c.recs[1] \in {"hdr", "unkN"} /\ c.recs[SignedRecords(c.recs) + 1] = "sig")
+Sane == /\ c.part = "structure" /\ c.recs # <<>> /\ Accept(c.magic, c.recs) => (c.recs[1] \in {"hdr", "hdrN", "unkN"} /\ Base(c.recs[SignedRecords(c.recs) + 1]) = "sig")
         /\ c.part = "lookup" => \A t \in 1..7 : /\ Nearest(c.pubs, t) # -1 => (Nearest(c.pubs, t) >= t /\ Nearest(c.pubs, t) <= Latest(c.pubs, t))
                                                /\ ByTime(c.pubs, t) # -1 => Nearest(c.pubs, t) = t
         /\ c.part = "trust" /\ Trusted(c.c) => c.c.alter = "none"
